@@ -462,135 +462,7 @@ func runC13(c *Ctx) {
 	rule := "C13.min"
 	_ = rule
 
-	// ---- C13.addendum
-	rule = "C13.addendum"
-	c.R.Rule(rule, "the quota-key addendum is emitted only under a Feature.In gate (threshold = FeatureAddendum) evaluated on the negotiated revision - a load of Client.protocolVersion that, in the handshake goroutine, is dominated by the downgrade test - at the place in the goroutine that leads to the emission or around the emission itself (found by what it writes: the ChainBuffer callback that puts Client.quotaKey); the addendum is flushed")
-	func() {
-		addK, _ := constOf(p, core.PkgProto, "FeatureAddendum")
-		// the emission: the ChainBuffer call whose callback writes Client.quotaKey (found by what it writes)
-		var emit ssa.Instruction
-		var add *ssa.Function
-		for _, fn := range append([]*ssa.Function{hg}, core.StaticReachList(hg)...) {
-			if fn == nil || pkgOf(fn) == nil || pkgOf(fn).Path() != core.PkgCh {
-				continue
-			}
-			for _, cc := range core.Calls(fn) {
-				f := core.CalleeFunc(cc)
-				if f == nil || !core.IsMethod(f, core.PkgProto, "Writer", "ChainBuffer") {
-					continue
-				}
-				cb := core.ClosureArg(cc, 1)
-				if cb == nil {
-					continue
-				}
-				for _, pc := range core.Calls(cb) {
-					if pf := core.CalleeFunc(pc); pf != nil && core.IsMethod(pf, core.PkgProto, "Buffer", "PutString") && core.FieldOrigin(pc.Common().Args[1], 0) == "Client.quotaKey" {
-						emit, add = cc.(ssa.Instruction), fn
-					}
-				}
-			}
-		}
-		if emit == nil {
-			c.R.Bad(rule, core.FuncName(hg), cfg, p.Pos(hg.Pos()), "the handshake goroutine never writes Client.quotaKey (no addendum)")
-			return
-		}
-		// its position in the goroutine: the emission itself or the call that leads to it
-		var calls []ssa.CallInstruction
-		if add == hg {
-			calls = append(calls, emit.(ssa.CallInstruction))
-		} else {
-			for _, call := range core.Calls(hg) {
-				if sf := core.StaticFn(call); sf != nil && (sf == add || core.StaticReach(sf, 2)[add]) {
-					calls = append(calls, call)
-				}
-			}
-		}
-		if len(calls) != 1 {
-			c.R.Bad(rule, core.FuncName(hg), cfg, p.Pos(hg.Pos()), sprintf("%d places in the handshake goroutine write the addendum", len(calls)))
-			return
-		}
-		call := calls[0].(ssa.Instruction)
-		goodGate := func(fn *ssa.Function, target ssa.Instruction, needDom bool) bool {
-			edges := core.CondEdges(fn, true, func(cond ssa.Value) (bool, bool) {
-				k, ver, ok := featureGate(cond)
-				if !ok || k != addK {
-					return false, false
-				}
-				if core.FieldOrigin(ver, 0) != "Client.protocolVersion" {
-					return false, false
-				}
-				if needDom {
-					if downgradeSite == nil {
-						return false, false
-					}
-					vi, ok := ver.(ssa.Instruction)
-					if !ok || !core.Dominates(downgradeSite, vi) && downgradeSite.Block() != vi.Block() {
-						// loads after the test: dominated by its block
-						if !downgradeSite.Block().Dominates(vi.Block()) {
-							return false, false
-						}
-					}
-				}
-				return true, true
-			})
-			return len(edges) > 0 && core.OnlyViaEdges(fn, target, edges)
-		}
-		outer := goodGate(hg, call, true)
-		inner := false
-		// inside a helper: the emission itself under a gate
-		if add != hg && goodGate(add, emit, false) {
-			inner = true
-		}
-		if outer || inner {
-			c.R.Ok(rule, core.FuncName(hg)+"/gate", cfg, p.Pos(call.Pos()), sprintf("gated on the negotiated revision (call site: %v, inside encodeAddendum: %v)", outer, inner))
-		} else {
-			c.R.Bad(rule, core.FuncName(hg)+"/gate", cfg, p.Pos(call.Pos()), "the addendum is not gated on the negotiated revision anywhere: after a downgrade the quota key is still written and the old server reads it as the next packet")
-		}
-		// flush after addendum
-		w := core.ReachAvoiding(core.PointOf(call), func(in ssa.Instruction) bool {
-			r, ok := in.(*ssa.Return)
-			if !ok {
-				return false
-			}
-			rv := core.ReturnErr(hg, r)
-			return rv != nil && core.MayBeNilError(rv, 0)
-		}, func(in ssa.Instruction) bool { return core.IsCallOf(in, isClientMethod("flush")) }, nil)
-		// the helper that emits the addendum may flush it itself
-		if len(w) > 0 && add != hg {
-			if ei, ok := emit.(ssa.Instruction); ok {
-				wi := core.ReachAvoiding(core.PointOf(ei), func(in ssa.Instruction) bool {
-					r, ok := in.(*ssa.Return)
-					if !ok {
-						return false
-					}
-					rv := core.ReturnErr(add, r)
-					return rv == nil || core.MayBeNilError(rv, 0)
-				}, func(in ssa.Instruction) bool { return core.IsCallOf(in, isClientMethod("flush")) }, nil)
-				// a return of the flush's own result is the flush
-				flushReturned := true
-				for _, x := range wi {
-					r, _ := x.At.(*ssa.Return)
-					if r == nil {
-						flushReturned = false
-						continue
-					}
-					rv := core.ReturnErr(add, r)
-					if _, ok := core.CallTo(rv, isClientMethod("flush")); !ok {
-						flushReturned = false
-					}
-				}
-				if len(wi) == 0 || flushReturned {
-					w = nil
-				}
-			}
-		}
-		if len(w) > 0 {
-			c.R.Bad(rule, core.FuncName(hg)+"/flush", cfg, p.Pos(call.Pos()), "the addendum can stay unflushed on a success path")
-		} else {
-			c.R.Ok(rule, core.FuncName(hg)+"/flush", cfg, p.Pos(call.Pos()), "flush follows the addendum")
-		}
-		c.R.Ok(rule, core.FuncName(add)+"/content", cfg, p.Pos(emit.Pos()), "PutString(c.quotaKey)")
-	}()
+	ruleAddendum(c, p, "C13.addendum", hg, downgradeSite, false)
 
 	// ---- C13.fail
 	rule = "C13.fail"
@@ -857,55 +729,7 @@ func runC13(c *Ctx) {
 		}
 	}()
 
-	// ---- C13.dialclose
-	rule = "C13.dialclose"
-	c.R.Rule(rule, "pairing: in Dial, on every path from a successful DialContext to a failure exit, Close is called on the dialled connection")
-	func() {
-		dial := p.Func(core.PkgCh, "Dial")
-		if !c.must(p, "ch.Dial", dial != nil) {
-			return
-		}
-		var dc ssa.CallInstruction
-		for _, call := range core.Calls(dial) {
-			if call.Common().IsInvoke() && call.Common().Method.Name() == "DialContext" {
-				dc = call
-			}
-		}
-		if dc == nil {
-			c.R.Unk(rule, "ch.Dial", cfg, p.Pos(dial.Pos()), "no DialContext call")
-			return
-		}
-		ev := core.ErrValue(dc)
-		al := core.Aliases(dial, ev)
-		edge := func(b *ssa.BasicBlock, i int) bool {
-			if ifi, ok := b.Instrs[len(b.Instrs)-1].(*ssa.If); ok {
-				if ns, ok := core.NilTest(ifi, al); ok && ns != i {
-					return false // dial failed: nothing to close
-				}
-			}
-			return true
-		}
-		w := core.ReachAvoiding(core.PointOf(dc.(ssa.Instruction)), func(in ssa.Instruction) bool {
-			r, ok := in.(*ssa.Return)
-			if !ok {
-				return false
-			}
-			rv := core.ReturnErr(dial, r)
-			return rv != nil && !core.IsNilConst(rv) && !core.MayBeNilError(rv, 0)
-		}, func(in ssa.Instruction) bool {
-			cl, ok := in.(ssa.CallInstruction)
-			if !ok {
-				return false
-			}
-			cc := cl.Common()
-			return cc.IsInvoke() && cc.Method.Name() == "Close" && core.IsNamed(cc.Value.Type(), "net", "Conn")
-		}, edge)
-		if len(w) > 0 {
-			c.R.Bad(rule, "ch.Dial", cfg, p.Pos(w[0].At.Pos()), "Dial returns an error after a successful dial without closing the connection it opened (socket leak when Connect fails)", p.TrailString(w[0])...)
-		} else {
-			c.R.Ok(rule, "ch.Dial", cfg, p.Pos(dc.Pos()), "the dialled connection is closed on every failure exit")
-		}
-	}()
+	ruleDialClose(c, p, "C13.dialclose")
 
 	// ---- C13.timeout
 	rule = "C13.timeout"
@@ -1640,5 +1464,190 @@ func ruleHelloAccepted(c *Ctx, p *core.Program, rule string, hg *ssa.Function) {
 		c.R.Bad(rule, core.FuncName(hg), cfg, p.Pos(w[0].At.Pos()), "after the hello was decoded the handshake can still fail for a reason other than a write error: the server's answer is rejected on the strength of something the client checks locally", p.TrailString(w[0])...)
 	} else {
 		c.R.Ok(rule, core.FuncName(hg), cfg, p.Pos(dec.Pos()), "after the hello only write errors fail the handshake")
+	}
+}
+
+// ruleAddendum (C13.addendum, C04.addendum): the quota-key addendum is gated on
+// the negotiated revision and flushed before the handshake returns; with
+// flushOnly only the flush clause is judged (the gate belongs to C13).
+func ruleAddendum(c *Ctx, p *core.Program, rule string, hg *ssa.Function, downgradeSite ssa.Instruction, flushOnly bool) {
+	cfg := p.Cfg.Name
+	c.R.Rule(rule, "the quota-key addendum is emitted only under a Feature.In gate (threshold = FeatureAddendum) evaluated on the negotiated revision - a load of Client.protocolVersion that, in the handshake goroutine, is dominated by the downgrade test - at the place in the goroutine that leads to the emission or around the emission itself (found by what it writes: the ChainBuffer callback that puts Client.quotaKey); the addendum is flushed")
+	addK, _ := constOf(p, core.PkgProto, "FeatureAddendum")
+	// the emission: the ChainBuffer call whose callback writes Client.quotaKey (found by what it writes)
+	var emit ssa.Instruction
+	var add *ssa.Function
+	for _, fn := range append([]*ssa.Function{hg}, core.StaticReachList(hg)...) {
+		if fn == nil || pkgOf(fn) == nil || pkgOf(fn).Path() != core.PkgCh {
+			continue
+		}
+		for _, cc := range core.Calls(fn) {
+			f := core.CalleeFunc(cc)
+			if f == nil || !core.IsMethod(f, core.PkgProto, "Writer", "ChainBuffer") {
+				continue
+			}
+			cb := core.ClosureArg(cc, 1)
+			if cb == nil {
+				continue
+			}
+			for _, pc := range core.Calls(cb) {
+				if pf := core.CalleeFunc(pc); pf != nil && core.IsMethod(pf, core.PkgProto, "Buffer", "PutString") && core.FieldOrigin(pc.Common().Args[1], 0) == "Client.quotaKey" {
+					emit, add = cc.(ssa.Instruction), fn
+				}
+			}
+		}
+	}
+	if emit == nil {
+		c.R.Bad(rule, core.FuncName(hg), cfg, p.Pos(hg.Pos()), "the handshake goroutine never writes Client.quotaKey (no addendum)")
+		return
+	}
+	// its position in the goroutine: the emission itself or the call that leads to it
+	var calls []ssa.CallInstruction
+	if add == hg {
+		calls = append(calls, emit.(ssa.CallInstruction))
+	} else {
+		for _, call := range core.Calls(hg) {
+			if sf := core.StaticFn(call); sf != nil && (sf == add || core.StaticReach(sf, 2)[add]) {
+				calls = append(calls, call)
+			}
+		}
+	}
+	if len(calls) != 1 {
+		c.R.Bad(rule, core.FuncName(hg), cfg, p.Pos(hg.Pos()), sprintf("%d places in the handshake goroutine write the addendum", len(calls)))
+		return
+	}
+	call := calls[0].(ssa.Instruction)
+	if !flushOnly {
+		goodGate := func(fn *ssa.Function, target ssa.Instruction, needDom bool) bool {
+			edges := core.CondEdges(fn, true, func(cond ssa.Value) (bool, bool) {
+				k, ver, ok := featureGate(cond)
+				if !ok || k != addK {
+					return false, false
+				}
+				if core.FieldOrigin(ver, 0) != "Client.protocolVersion" {
+					return false, false
+				}
+				if needDom {
+					if downgradeSite == nil {
+						return false, false
+					}
+					vi, ok := ver.(ssa.Instruction)
+					if !ok || !core.Dominates(downgradeSite, vi) && downgradeSite.Block() != vi.Block() {
+						// loads after the test: dominated by its block
+						if !downgradeSite.Block().Dominates(vi.Block()) {
+							return false, false
+						}
+					}
+				}
+				return true, true
+			})
+			return len(edges) > 0 && core.OnlyViaEdges(fn, target, edges)
+		}
+		outer := goodGate(hg, call, true)
+		inner := false
+		// inside a helper: the emission itself under a gate
+		if add != hg && goodGate(add, emit, false) {
+			inner = true
+		}
+		if outer || inner {
+			c.R.Ok(rule, core.FuncName(hg)+"/gate", cfg, p.Pos(call.Pos()), sprintf("gated on the negotiated revision (call site: %v, inside encodeAddendum: %v)", outer, inner))
+		} else {
+			c.R.Bad(rule, core.FuncName(hg)+"/gate", cfg, p.Pos(call.Pos()), "the addendum is not gated on the negotiated revision anywhere: after a downgrade the quota key is still written and the old server reads it as the next packet")
+		}
+	}
+	// flush after addendum
+	w := core.ReachAvoiding(core.PointOf(call), func(in ssa.Instruction) bool {
+		r, ok := in.(*ssa.Return)
+		if !ok {
+			return false
+		}
+		rv := core.ReturnErr(hg, r)
+		return rv != nil && core.MayBeNilError(rv, 0)
+	}, func(in ssa.Instruction) bool { return core.IsCallOf(in, isClientMethod("flush")) }, nil)
+	// the helper that emits the addendum may flush it itself
+	if len(w) > 0 && add != hg {
+		if ei, ok := emit.(ssa.Instruction); ok {
+			wi := core.ReachAvoiding(core.PointOf(ei), func(in ssa.Instruction) bool {
+				r, ok := in.(*ssa.Return)
+				if !ok {
+					return false
+				}
+				rv := core.ReturnErr(add, r)
+				return rv == nil || core.MayBeNilError(rv, 0)
+			}, func(in ssa.Instruction) bool { return core.IsCallOf(in, isClientMethod("flush")) }, nil)
+			// a return of the flush's own result is the flush
+			flushReturned := true
+			for _, x := range wi {
+				r, _ := x.At.(*ssa.Return)
+				if r == nil {
+					flushReturned = false
+					continue
+				}
+				rv := core.ReturnErr(add, r)
+				if _, ok := core.CallTo(rv, isClientMethod("flush")); !ok {
+					flushReturned = false
+				}
+			}
+			if len(wi) == 0 || flushReturned {
+				w = nil
+			}
+		}
+	}
+	if len(w) > 0 {
+		c.R.Bad(rule, core.FuncName(hg)+"/flush", cfg, p.Pos(call.Pos()), "the addendum can stay unflushed on a success path")
+	} else {
+		c.R.Ok(rule, core.FuncName(hg)+"/flush", cfg, p.Pos(call.Pos()), "flush follows the addendum")
+	}
+	c.R.Ok(rule, core.FuncName(add)+"/content", cfg, p.Pos(emit.Pos()), "PutString(c.quotaKey)")
+}
+
+// ruleDialClose (C13.dialclose, C10.dialclose): Dial closes the connection it
+// dialled on every failure exit.
+func ruleDialClose(c *Ctx, p *core.Program, rule string) {
+	cfg := p.Cfg.Name
+	c.R.Rule(rule, "pairing: in Dial, on every path from a successful DialContext to a failure exit, Close is called on the dialled connection")
+	dial := p.Func(core.PkgCh, "Dial")
+	if !c.must(p, "ch.Dial", dial != nil) {
+		return
+	}
+	var dc ssa.CallInstruction
+	for _, call := range core.Calls(dial) {
+		if call.Common().IsInvoke() && call.Common().Method.Name() == "DialContext" {
+			dc = call
+		}
+	}
+	if dc == nil {
+		c.R.Unk(rule, "ch.Dial", cfg, p.Pos(dial.Pos()), "no DialContext call")
+		return
+	}
+	ev := core.ErrValue(dc)
+	al := core.Aliases(dial, ev)
+	edge := func(b *ssa.BasicBlock, i int) bool {
+		if ifi, ok := b.Instrs[len(b.Instrs)-1].(*ssa.If); ok {
+			if ns, ok := core.NilTest(ifi, al); ok && ns != i {
+				return false // dial failed: nothing to close
+			}
+		}
+		return true
+	}
+	w := core.ReachAvoiding(core.PointOf(dc.(ssa.Instruction)), func(in ssa.Instruction) bool {
+		r, ok := in.(*ssa.Return)
+		if !ok {
+			return false
+		}
+		rv := core.ReturnErr(dial, r)
+		return rv != nil && !core.IsNilConst(rv) && !core.MayBeNilError(rv, 0)
+	}, func(in ssa.Instruction) bool {
+		cl, ok := in.(ssa.CallInstruction)
+		if !ok {
+			return false
+		}
+		cc := cl.Common()
+		return cc.IsInvoke() && cc.Method.Name() == "Close" && core.IsNamed(cc.Value.Type(), "net", "Conn")
+	}, edge)
+	if len(w) > 0 {
+		c.R.Bad(rule, "ch.Dial", cfg, p.Pos(w[0].At.Pos()), "Dial returns an error after a successful dial without closing the connection it opened (socket leak when Connect fails)", p.TrailString(w[0])...)
+	} else {
+		c.R.Ok(rule, "ch.Dial", cfg, p.Pos(dc.Pos()), "the dialled connection is closed on every failure exit")
 	}
 }
